@@ -90,6 +90,15 @@ def _setup():
     return inj
 
 
+def _jsonish(x):
+    """what json.loads(json.dumps(x)) does to the containers of a lineage (leaves, possibly symbolic, untouched)"""
+    if isinstance(x, dict):
+        return {k: _jsonish(v) for k, v in x.items()}
+    if isinstance(x, (tuple, list)):
+        return [_jsonish(v) for v in x]
+    return x
+
+
 def tok_frontend():
     import strax
 
@@ -108,10 +117,18 @@ def tok_frontend():
                 bk = f"e{len(self.entries)}"
                 self.entries.append((key, bk))
                 return be.__class__.__name__, bk
+            # as DataDirectory._find: exact match by lineage hash first ...
             for k2, bk in self.entries:
                 if bk in be.store and k2.run_id == key.run_id and k2.data_type == key.data_type and \
-                        self._matches(k2.lineage, key.lineage, fuzzy_for, fuzzy_for_options):
+                        k2.lineage_hash == key.lineage_hash:
                     return be.__class__.__name__, bk
+            # ... then, for fuzzy searches only, the STORED lineage of every candidate (read back from json: tuples have
+            # become lists) against the wanted one
+            if fuzzy_for or fuzzy_for_options:
+                for k2, bk in self.entries:
+                    if bk in be.store and k2.run_id == key.run_id and k2.data_type == key.data_type and \
+                            self._matches(_jsonish(k2.lineage), key.lineage, fuzzy_for, fuzzy_for_options):
+                        return be.__class__.__name__, bk
             raise strax.DataNotAvailable
 
     return TokFrontend()
@@ -124,7 +141,9 @@ D = np.dtype([("time", np.int64), ("endtime", np.int64), ("id", np.int64), ("val
 def mk_src(da, du, ver, obj=True):
     import strax
 
-    @strax.takes_config(strax.Option("a", default=da, track=True), strax.Option("u", default=du, track=False))
+    more = [strax.Option("tu", default=_TUP[0], track=True)] if _TUP[0] is not None else []
+
+    @strax.takes_config(strax.Option("a", default=da, track=True), strax.Option("u", default=du, track=False), *more)
     class Src(strax.Plugin):
         provides = ("src",); depends_on = (); data_kind = "ksrc"; dtype = ctx.dt(D, obj)
         __version__ = ver
@@ -148,6 +167,7 @@ def mk_src(da, du, ver, obj=True):
 
 
 _BNAME = ["b"]  # name of m1's tracked option; the "m1" variant names the option like the data type it configures
+_TUP = [None]  # not None: src has a further tracked option whose VALUE is a tuple (this value)
 _MIX = [None]  # not None: m1 ALSO takes src's option u (same default, which is the value held here) but TRACKS it
 
 
@@ -209,6 +229,7 @@ def sym_history(ops, obj=True, bname="b", mixed=False):
 
     _BNAME[0] = bname
     _MIX[0] = None
+    _TUP[0] = None
 
     da = fresh_int("da"); du = fresh_int("du"); db = fresh_int("db")
     vs = fresh_int("v_src"); vm = fresh_int("v_m1")
@@ -288,6 +309,7 @@ def nat_history(params, model):
     m = lambda k: int(model.get(k, 0))
     state = dict(da=m("da"), du=m("du"), db=m("db"), vs=m("v_src"), vm=m("v_m1"), cfg={})
     _MIX[0] = state["du"] if mixed else None
+    _TUP[0] = None
     MemFrontend, _, _ = ctx.make_storage_classes()
     fe = MemFrontend()
     mk = lambda s: [mk_src(s["da"], s["du"], str(s["vs"]), False), mk_m1(s["db"], str(s["vm"]), s["vm"], False), mk_t1(False)]
@@ -343,13 +365,15 @@ def nat_history(params, model):
     return {"ok": not bad, "detail": "; ".join(bad) or "agrees with a fresh context", "label": "history:"}
 
 
-def sym_fuzzy(kind, obj=True):
+def sym_fuzzy(kind, obj=True, tuple_option=False):
     """Fuzzy matching: stored data accepted iff lineages are equal after deleting the fuzzy types / options; nothing is
     saved under fuzzy matching."""
     import strax
 
     _BNAME[0] = "b"
     _MIX[0] = None
+    # tuple_option: an ancestor has a tracked option with a tuple value, identical on both sides (never fuzzy)
+    _TUP[0] = (fresh_int("tu0"), 3) if tuple_option else None
     da = fresh_int("da"); db = fresh_int("db"); vm = fresh_int("v_m1")
     da2 = fresh_int("da2"); db2 = fresh_int("db2"); vm2 = fresh_int("v_m12")
     fe = tok_frontend()
@@ -397,6 +421,7 @@ def sym_order():
     """Option insertion order does not change the key."""
     _BNAME[0] = "b"
     _MIX[0] = None
+    _TUP[0] = None
     x = fresh_int("x"); y = fresh_int("y")
     st1 = ctx.make_context([mk_src(1, 2, 3), mk_m1(4, 5, 5), mk_t1()], storage=[tok_frontend()])
     st2 = ctx.make_context([mk_src(1, 2, 3), mk_m1(4, 5, 5), mk_t1()], storage=[tok_frontend()])
@@ -606,7 +631,8 @@ OBLIGATIONS = [
     Ob("history", sym_history, _grid, nat_history, setup=_setup, witnesses=1,
        doc="after any history: keys and get_array values equal a brand-new context's; key(d) changes iff tracked "
            "option / version of d or an ancestor changed"),
-    Ob("fuzzy", sym_fuzzy, lambda tier: [dict(kind="type"), dict(kind="option")], nat_fuzzy, setup=_setup, witnesses=1),
+    Ob("fuzzy", sym_fuzzy, lambda tier: [dict(kind="type"), dict(kind="option"), dict(kind="option", tuple_option=True),
+                                         dict(kind="type", tuple_option=True)], nat_fuzzy, setup=_setup, witnesses=1),
     Ob("order", sym_order, lambda tier: [dict()], None, setup=_setup, witnesses=0),
     Ob("hashfn", sym_hashfn, lambda tier: [dict(i=k) for k in range(len(_universe()))], nat_hashfn, witnesses=1,
        doc="real deterministic_hash on a typed universe of option values (ordered pairs, three wrappings): same key iff "
